@@ -7,7 +7,8 @@ From DV Require Import Common.Res Common.Str Stack.Model.
 Import ListNotations.
 Local Open Scope nat_scope.
 
-Definition obs_item := (option err * option (list nat) * list nat * bool)%type.
+(** (exception class, shape, dtype code of the returned array / image, file ids afterwards, dirty flag) *)
+Definition obs_item := (option err * option (list nat) * option nat * list nat * bool)%type.
 
 Record case := mkcase {
   c_time : bool;
@@ -26,7 +27,14 @@ Fixpoint nats_eqb (a b : list nat) : bool :=
 Definition shape_of_outcome (o : outcome) : option (list nat) :=
   match o with
   | OutShape sh => Some sh
-  | OutData _ sh => Some sh
+  | OutData _ sh _ => Some sh
+  | _ => None
+  end.
+
+Definition dtype_of_outcome (o : outcome) : option nat :=
+  match o with
+  | OutData _ _ d => Some d
+  | OutNifti n => Some (o_dtype n)
   | _ => None
   end.
 
@@ -35,13 +43,17 @@ Definition shape_of_outcome (o : outcome) : option (list nat) :=
     result classes, shapes and dirty flags are compared. *)
 Definition item_match (ord : bool) (m : res outcome * (list nat * bool)) (o : obs_item) : bool :=
   let '(r, (mids, mdirty)) := m in
-  let '(oerr, oshape, oids, odirty) := o in
+  let '(oerr, oshape, odtype, oids, odirty) := o in
   (negb ord || nats_eqb mids oids) && Bool.eqb mdirty odirty &&
   match r, oerr with
   | Ok out, None =>
       match oshape with
       | None => true
       | Some sh => match shape_of_outcome out with Some sh' => nats_eqb sh sh' | None => false end
+      end &&
+      match odtype with
+      | None => true
+      | Some d => match dtype_of_outcome out with Some d' => Nat.eqb d d' | None => false end
       end
   | Err e, Some e' => err_eqb e e'
   | _, _ => false
@@ -67,9 +79,10 @@ Definition check (c : case) : bool := match_all true (model_trace c) (c_obs c).
 Definition show_item (m : res outcome * (list nat * bool)) :=
   let '(r, s) := m in
   (match r with
-   | Ok (OutShape sh) => (None, Some sh)
-   | Ok (OutData _ sh) => (None, Some sh)
-   | Ok _ => (None, None)
-   | Err e => (Some e, None)
+   | Ok (OutShape sh) => (None, Some sh, None)
+   | Ok (OutData _ sh d) => (None, Some sh, Some d)
+   | Ok (OutNifti n) => (None, None, Some (o_dtype n))
+   | Ok _ => (None, None, None)
+   | Err e => (Some e, None, None)
    end, s).
 Definition show (c : case) := map show_item (model_trace c).
